@@ -59,6 +59,9 @@ func DrawSpec(t *rapid.T, label string) *Spec {
 // types refer to (@ref, @id) differently: what a shared type means is decided by each root's own
 // table of types, never by the root that happened to use the type object first.
 func DrawTwinSpecs(t *rapid.T, label string) []*Spec {
+	if rapid.IntRange(0, 2).Draw(t, label+"Inheriting") == 0 {
+		return drawInheritingTwins(t, label)
+	}
 	root := rapid.SampledFrom([]string{"{\n  @key: 1, // {optional: true}\n  \"item\": @item // {optional: true}\n}", "{\n  \"item\": @item\n}", "{\n  @key: 1\n}"}).Draw(t, label+"Root")
 	shared := []lib.Named{{Name: "@key", Text: "@ref"}, {Name: "@item", Text: "{\n  \"id\": 1 // {type: \"@id\"}\n}"}}
 	defs := [][]lib.Named{
@@ -78,6 +81,29 @@ func DrawTwinSpecs(t *rapid.T, label string) []*Spec {
 	// their own (strict) reading of unmarked keys whichever root uses them first
 	if rapid.Bool().Draw(t, label+"Lenient") {
 		out[rapid.IntRange(0, 1).Draw(t, label+"LenientWhich")].Schema.KeysOptional = true
+	}
+	return out
+}
+
+// drawInheritingTwins: two roots that share ONE type object which inherits (allOf) from a type
+// each root defines for itself - what the shared object inherits is each root's own business; one
+// of the roots may lack the parent altogether (its Check fails, the other root's does not).
+func drawInheritingTwins(t *rapid.T, label string) []*Spec {
+	root := rapid.SampledFrom([]string{"{\n  \"heir\": @heir\n}", "@heir", "[@heir]", "{\n  \"heir\": @heir, // {optional: true}\n  \"p\": @parent // {optional: true}\n}"}).Draw(t, label+"Root")
+	shared := []lib.Named{{Name: "@heir", Text: rapid.SampledFrom([]string{"{ // {allOf: \"@parent\"}\n  \"own\": 2\n}", "{ // {allOf: [\"@parent\", \"@more\"]}\n  \"own\": 2 // {optional: true}\n}"}).Draw(t, label+"Heir")}}
+	defs := [][]lib.Named{
+		{{Name: "@parent", Text: "{\n  \"x\": 1\n}"}, {Name: "@more", Text: "{\n  \"m\": true // {optional: true}\n}"}},
+		{{Name: "@parent", Text: "{\n  \"y\": \"s\"\n}"}, {Name: "@more", Text: "{\n  \"n\": null\n}"}},
+		{{Name: "@parent", Text: "{\n  \"x\": \"str\", // {optional: true}\n  \"z\": 1.5\n}"}, {Name: "@more", Text: "{}"}},
+		{{Name: "@more", Text: "{\n  \"m\": 1\n}"}}, // no @parent at all
+	}
+	idx := rapid.Permutation([]int{0, 1, 2, 3}).Draw(t, label+"Defs")[:2]
+	var out []*Spec
+	for _, i := range idx {
+		sp := &Spec{Kind: "schema", Group: label + "heirs", ShareOnly: []string{"@heir"}}
+		sp.Schema = lib.Spec{Schema: root, Types: append(append([]lib.Named{}, shared...), defs[i]...)}
+		sp.Docs = []string{`{"heir":{"own":2,"x":1}}`, `{"own":2,"y":"s","n":null}`, `[{"own":2,"z":1.5}]`, `{"heir":{"own":2,"x":1,"m":true}}`, `{"own":2,"x":1}`, `{}`}
+		out = append(out, sp)
 	}
 	return out
 }
